@@ -252,7 +252,7 @@ Definition new_withdraw_rate (amount wrate total slashed : N) (neg : bool) : res
                   add256 unb (if 1 <? sb then sb - 1 else 0)
                 else
                   do sb' <- (if slashed =? 0 then Some sb else add256 sb 1);
-                  do d <- signed_sub unb sb'; Some (fst d));
+                  do d <- signed_sub unb sb'; Some (if snd d then 0 else fst d));
   if amount =? 0 then Some wrate
   else do a128 <- narrow128 actual; ratio a128 amount.
 
@@ -379,7 +379,9 @@ Definition convert_bsei_stsei (w : world) (h : hub) (self : addr) (amount : N) (
   do awf <- (if hs_ber s <? hp_thr p then
                do max_fee <- mulU amount (hp_pegfee p);
                do c <- add128 bsupply (cb_reqb cb);
-               do required <- sub128 c (hs_bb s);
+               do gap <- sub128 c (hs_bb s);
+               do required <- (if hs_bb s =? 0 then Some gap
+                               else do rest <- sub128 c amount; mul_ratio gap rest (hs_bb s));
                sub128 amount (peg_fee max_fee required)
              else Some amount);
   do denom_equiv <- mulU awf (hs_ber s);
